@@ -3,5 +3,6 @@
 set -e
 cd "$(dirname "$0")"
 coqc -q -Q ../coq RbxVerif ../coq/Extract/Extract.v > /dev/null
-ocamlfind ocamlopt -O2 -w -a -package str model.mli model.ml modelrun.ml -o modelrun 2>/dev/null || \
-ocamlfind ocamlopt -w -a model.mli model.ml modelrun.ml -o modelrun
+RUNS=$(ls run_*.ml | sort)
+ocamlfind ocamlopt -O2 -w -a model.mli model.ml mcommon.ml $RUNS modelrun.ml -o modelrun 2>/dev/null || \
+ocamlfind ocamlopt -w -a model.mli model.ml mcommon.ml $RUNS modelrun.ml -o modelrun
